@@ -76,6 +76,9 @@ def sessionStep (k : Kind) (other : Except Err PyVal) (st : Manifest × Option P
     match r.2 with
     | .ok doc => ((r.1, some doc), jok (jstr (JsonText.dumps doc)))
     | .error e => ((r.1, st.2), errJson e)
+  else if call == "dump_for_tree".toList then
+    let r := ExtraFiles.dumpForTreeS m.payload (getStrD j "variant") (getStrD j "arch") (getStrD j "basepath")
+    (({ m with payload := r.1 }, st.2), exceptJson jstr r.2)
   else if call == "loads_own".toList then
     match st.2 with
     | some doc => let r := loadS k m (reparse doc); ((r.1, st.2), outJson r.2)
